@@ -112,8 +112,10 @@ func queryConfigs(thorough bool) []qcfg {
 			it("h", val.S("k3"), "g", val.S("t"), "s", val.S("2024-01")),
 			it("h", val.S("k4"), "g", val.S("t"), "s", val.S("2024.1"), "a", val.S("v")),
 			it("h", val.S("k5"), "g", val.S("t a"), "s", val.S("2024/1")),
+			// an item that consists of its key alone (in no index; ends pages of the base table)
+			it("h", val.S("k2x")),
 		},
-		hashVals:  map[string][]val.V{"": sv("k1", "k3", "zz"), "gsi": sv("t", "t-a", "t a", "t.a"), "gs2": sv("t", "t-a", "t a")},
+		hashVals:  map[string][]val.V{"": sv("k1", "k3", "k2x", "zz"), "gsi": sv("t", "t-a", "t a", "t.a"), "gs2": sv("t", "t-a", "t a")},
 		rangeVals: map[string][]val.V{"gs2": sv("2024", "2024-01", "2024.1", "2024/1", "2024-")},
 		prefixes:  map[string][]val.V{"gs2": sv("2024", "2024-", "2024.")},
 	}
